@@ -35,6 +35,32 @@ def routeAnswer (mtxt hp : String) (notFoundBody : String) : Option String := do
       pure (s!"405 body={toHex (bytes "Method Not Allowed")} allow={"+".intercalate names}" ++ tail)
     | .notFound => pure (s!"404 body={toHex (bytes notFoundBody)}" ++ tail)
 
+/-- the routes of harness/drv_mt.cc `opRouteAll`: every method has a route of its own, HEAD and TRACE share one, GET and HEAD share
+    one, all nine share one -/
+def allMethodTables : Option Tables := do
+  let add (n : Node) (p : String) (h : Nat) : Option Node := match addRoute n (bytes p) h with | .ok t => some t | .error _ => none
+  ["OPTIONS", "GET", "POST", "HEAD", "PUT", "PATCH", "DELETE", "TRACE", "CONNECT"].mapM fun mt => do
+    let mi ← methodIndex mt
+    let n1 ← add [] ("/one/" ++ mt.toLower ++ "/:tag") 1
+    let n2 ← if mt == "HEAD" || mt == "TRACE" then add n1 "/ht/:tag" 2 else some n1
+    let n3 ← if mt == "GET" || mt == "HEAD" then add n2 "/gh/:tag" 3 else some n2
+    let n4 ← add n3 "/all/:tag" 4
+    pure (mi, n4)
+
+def routeAllAnswer (mtxt hp : String) : Option String := do
+    let m ← methodIndex mtxt
+    let path ← fromHex hp
+    let t ← allMethodTables
+    let (_, a) := route false t m path
+    match a with
+    | .handled _ params _ =>
+      let tag := (params.find? (fun p => p.1 == bytes ":tag")).map (·.2) |>.getD []
+      pure s!"200 body={toHex (bytes mtxt ++ [58] ++ tag)}"
+    | .notAllowed ms =>
+      let names := sortStrs (ms.map methodText')
+      pure s!"405 body={toHex (bytes "Method Not Allowed")} allow={"+".intercalate names}"
+    | .notFound => pure s!"404 body={toHex (bytes "Could not find a matching route")}"
+
 /-- the accessor routes of harness/drv_mt.cc `opRouteP` -/
 def accessorTable : Option Node := do
   let add (n : Node) (p : String) (h : Nat) : Option Node := match addRoute n (bytes p) h with | .ok t => some t | .error _ => none
@@ -61,6 +87,7 @@ def serveOp : List String → Option String
         pure s!"200 body={toHex (bytes b)}"
   -- a custom not-found handler only replaces the default 404 answer: the 405 decision comes first
   | ["routenf", mtxt, hp] => routeAnswer mtxt hp "custom-nf"
+  | ["routeall", mtxt, hp] => routeAllAnswer mtxt hp
   | ["route", mtxt, hp] => do
     let m ← methodIndex mtxt
     let path ← fromHex hp
